@@ -12,8 +12,8 @@ import (
 
 var c01Names = []string{"a", "A", "b", "Ab", "aB", "", "a.b", "x-y", "foo", "Foo", "FOO", "a", "b"}
 var c01Values = []string{"", "x", "X", "abc", "ABC", "aBc", " abc ", "a%41c", "a+b", "%", "1", "2", "10", "007", "\xff\xfe", "é", "ab\x00c", "a b\tc", "foo=bar&x", "select", "SeLeCt 1", "<script>"}
-var c01HdrNames = []string{"H", "h", "X-A", "x-a", "Foo", "foo", "Accept"}
-var c01CookieNames = []string{"a", "A", "sid", "Foo", "foo"}
+var c01HdrNames = []string{"H", "h", "X-A", "x-a", "Foo", "foo", "Accept", "X-Über", "x-über"}
+var c01CookieNames = []string{"a", "A", "sid", "Foo", "foo", "SÉSSION", "séssion"}
 var c01CookieValues = []string{"", "x", "abc", "ABC", "1", "a=b", "%41", "\xff"}
 var c01KeyRegexes = []string{"^a", "a$", "^fo", "^Fo", "^FOO$", ".", "^[a-c]", "^[A-C]b$", "a|b", "^$", "x-", "o+", "^a\\.b$", "b?a", "^h$", "^X-", "sid|foo"}
 
